@@ -13,14 +13,22 @@ package main
 
 import (
 	"bytes"
+	"encoding/json"
 	"flag"
 	"fmt"
 	"io"
+	"net/http/httptest"
 	"reflect"
 	"sort"
 	"strconv"
 	"strings"
 	"sync"
+	"time"
+
+	sio "github.com/karagenc/socket.io-go"
+	eio "github.com/karagenc/socket.io-go/engine.io"
+	eioparser "github.com/karagenc/socket.io-go/engine.io/parser"
+	"nhooyr.io/websocket"
 
 	"github.com/karagenc/socket.io-go/parser"
 	jsonparser "github.com/karagenc/socket.io-go/parser/json"
@@ -747,6 +755,7 @@ func siodecodeMain(args []string) error {
 	n := fs.Int("n", 1000, "number of generated cases (mutate)")
 	workers := fs.Int("workers", 8, "")
 	outp := fs.String("out", "-", "")
+	classes := fs.String("classes", "", "live: comma separated class indexes (default all)")
 	fs.Parse(args)
 	out, err := vk.NewOut(*outp)
 	if err != nil {
@@ -761,11 +770,315 @@ func siodecodeMain(args []string) error {
 	case "mutate":
 		sdMutate(out, *seed, *n)
 	case "live":
-		return sdLive(out, *seed)
+		return sdLive(out, *classes)
 	default:
 		return fmt.Errorf("unknown mode %q", *mode)
 	}
 	return nil
 }
 
-func sdLive(out *vk.Out, seed uint64) error { return fmt.Errorf("live mode not built yet") }
+// ---------------------------------------------------------------- live rig
+//
+// A real sio.Server on 127.0.0.1:0 with typed handlers, one healthy Go client (Manager) that
+// must stay usable, and per class a raw protocol peer (the repo's engine.io client) that joins
+// "/" and then sends the class's frames verbatim.  Observed per class: what the server did with
+// the frames (handler entered / socket error handler / connection closed by the server), whether
+// the healthy connection still completes an ack round trip afterwards, and whether a later
+// connection can be opened and used.  A crash of the process ends the engine: the driver sees
+// the last "LIVE-START <i>" line and reports that class.
+
+type sdLiveClass struct {
+	Name   string
+	Fam    string   // handler family that the event name selects on the server
+	Frames []string // frames sent after CONNECT; a frame starting with "b:" is sent as binary
+}
+
+var sdLiveClasses = []sdLiveClass{
+	{"valid-binary", "bin", []string{`51-["bin",{"_placeholder":true,"num":0}]`, "b:ABC"}},
+	{"valid-map", "map", []string{`51-["map",{"a":{"_placeholder":true,"num":0}}]`, "b:ABC"}},
+	{"nsp-without-comma", "none", []string{`2/abc`}},
+	{"connect-nsp-without-comma", "none", []string{`0/abc`}},
+	{"invalid-type", "none", []string{`9["none"]`}},
+	{"empty-frame", "none", []string{``}},
+	{"count-wraps-negative", "bin", []string{`518446744073709551615-["bin",{"_placeholder":true,"num":0}]`}},
+	{"count-2^63", "bin", []string{`59223372036854775808-["bin",{"_placeholder":true,"num":0}]`}},
+	{"count-not-a-number", "bin", []string{`5x-["bin"]`}},
+	{"negative-placeholder-typed", "bin", []string{`51-["bin",{"_placeholder":true,"num":-5}]`, "b:ABC"}},
+	{"negative-placeholder-map", "map", []string{`51-["map",{"a":{"_placeholder":true,"num":-5}}]`, "b:ABC"}},
+	{"placeholder-minus-one", "bin", []string{`51-["bin",{"_placeholder":true,"num":-1}]`, "b:ABC"}},
+	{"placeholder-maxint", "bin", []string{`51-["bin",{"_placeholder":true,"num":9223372036854775807}]`, "b:ABC"}},
+	{"placeholder-1e300-map", "map", []string{`51-["map",{"a":{"_placeholder":true,"num":1e300}}]`, "b:ABC"}},
+	{"placeholder-too-large", "bin", []string{`51-["bin",{"_placeholder":true,"num":1}]`, "b:ABC"}},
+	{"placeholder-in-struct", "struct", []string{`51-["struct",{"B":{"_placeholder":true,"num":-2},"M":{"k":{"_placeholder":true,"num":0}}}]`, "b:ABC"}},
+	{"placeholder-in-any", "any", []string{`51-["any",{"a":{"_placeholder":true,"num":-5}}]`, "b:ABC"}},
+	{"mapbin-valid", "mapbin", []string{`51-["mapbin",{"a":{"_placeholder":true,"num":0}}]`, "b:ABC"}},
+	{"truncated-json", "bin", []string{`2["bin",`}},
+	{"truncated-name", "none", []string{`2["no`}},
+	{"text-where-binary-expected", "bin", []string{`51-["bin",{"_placeholder":true,"num":0}]`, `2["none"]`}},
+	{"binary-without-header", "none", []string{"b:\x00\x01\x02"}},
+	{"ack-unknown-id", "none", []string{`3999[1]`}},
+	{"ack-without-id", "none", []string{`3[1]`}},
+	{"binary-ack-negative", "none", []string{`61-7[{"_placeholder":true,"num":-3}]`, "b:ABC"}},
+	{"wrong-arg-type", "str", []string{`2["str",{"a":1}]`}},
+	{"second-connect", "none", []string{`0`}},
+}
+
+type sdLiveRow struct {
+	Suite   string  `json:"suite"`
+	Class   string  `json:"class"`
+	Index   int     `json:"index"`
+	Fam     string  `json:"fam"`
+	Frames  [][]int `json:"frames"`
+	Handler bool    `json:"handler"` // the event handler was entered
+	ErrH    bool    `json:"errh"`    // the socket's error handler was invoked
+	Closed  bool    `json:"closed"`  // the server closed the raw peer's connection
+	Healthy bool    `json:"healthy"` // the healthy connection completed an ack round trip afterwards
+	Later   bool    `json:"later"`   // a later connection connected and completed an ack round trip
+	Dec     sdCase  `json:"dec"`     // the same frames through Parser.Add + decode (recorded answers)
+	Note    string  `json:"note,omitempty"`
+}
+
+type sdLiveRig struct {
+	mu      sync.Mutex
+	cond    *sync.Cond
+	handler map[string]int // sid -> handler entries
+	errh    map[string]int
+	srv     *sio.Server
+	ts      *httptest.Server
+}
+
+func (r *sdLiveRig) bump(m map[string]int, sid string) {
+	r.mu.Lock()
+	m[sid]++
+	r.mu.Unlock()
+	r.cond.Broadcast()
+}
+
+func (r *sdLiveRig) wait(d time.Duration, pred func() bool) bool {
+	deadline := time.Now().Add(d)
+	for {
+		r.mu.Lock()
+		ok := pred()
+		r.mu.Unlock()
+		if ok {
+			return true
+		}
+		if time.Now().After(deadline) {
+			return false
+		}
+		time.Sleep(5 * time.Millisecond)
+	}
+}
+
+func sdNewLiveRig() *sdLiveRig {
+	r := &sdLiveRig{handler: map[string]int{}, errh: map[string]int{}}
+	r.cond = sync.NewCond(&r.mu)
+	cfg := &sio.ServerConfig{}
+	cfg.EIO.WebSocketAcceptOptions = &websocket.AcceptOptions{CompressionMode: websocket.CompressionDisabled}
+	r.srv = sio.NewServer(cfg)
+	r.srv.OnConnection(func(socket sio.ServerSocket) {
+		sid := string(socket.ID())
+		in := func() { r.bump(r.handler, sid) }
+		socket.OnEvent("none", func() { in() })
+		socket.OnEvent("bin", func(b sio.Binary) { in() })
+		socket.OnEvent("map", func(m map[string]any) { in() })
+		socket.OnEvent("any", func(a any) { in() })
+		socket.OnEvent("struct", func(s sdStruct) { in() })
+		socket.OnEvent("mapbin", func(m map[string]sio.Binary) { in() })
+		socket.OnEvent("str", func(s string) { in() })
+		socket.OnEvent("echo", func(s string, ack func(string)) { ack(s) })
+		socket.OnError(func(err error) { r.bump(r.errh, sid) })
+	})
+	if err := r.srv.Run(); err != nil {
+		panic(err)
+	}
+	r.ts = httptest.NewServer(r.srv)
+	return r
+}
+
+// sdEcho: an ack round trip on a Go client socket.
+func sdEcho(s sio.ClientSocket, tag string, d time.Duration) bool {
+	done := make(chan string, 1)
+	s.Emit("echo", tag, func(got string) {
+		select {
+		case done <- got:
+		default:
+		}
+	})
+	select {
+	case got := <-done:
+		return got == tag
+	case <-time.After(d):
+		return false
+	}
+}
+
+func sdDialHealthy(url string) (*sio.Manager, sio.ClientSocket, bool) {
+	cfg := &sio.ManagerConfig{NoReconnection: true}
+	cfg.EIO.Transports = []string{"websocket"}
+	cfg.EIO.WebSocketDialOptions = &websocket.DialOptions{CompressionMode: websocket.CompressionDisabled}
+	m := sio.NewManager(url, cfg)
+	s := m.Socket("/", nil)
+	connected := make(chan struct{}, 1)
+	s.OnConnect(func() {
+		select {
+		case connected <- struct{}{}:
+		default:
+		}
+	})
+	s.Connect()
+	select {
+	case <-connected:
+		return m, s, true
+	case <-time.After(10 * time.Second):
+		return m, s, false
+	}
+}
+
+func sdLiveFrame(f string) ([]byte, bool) {
+	if strings.HasPrefix(f, "b:") {
+		s, err := strconv.Unquote(`"` + f[2:] + `"`)
+		if err != nil {
+			s = f[2:]
+		}
+		return []byte(s), true
+	}
+	return []byte(f), false
+}
+
+// sdLiveEmit writes the row to -out and, unbuffered, to stdout (a later class may end the process).
+func sdLiveEmit(out *vk.Out, row sdLiveRow) {
+	out.Put(row)
+	if b, err := json.Marshal(row); err == nil {
+		fmt.Printf("LIVE-ROW %s\n", b)
+	}
+}
+
+func sdLive(out *vk.Out, classes string) error {
+	want := map[int]bool{}
+	if classes != "" {
+		for _, x := range strings.Split(classes, ",") {
+			i, err := strconv.Atoi(strings.TrimSpace(x))
+			if err != nil {
+				return err
+			}
+			want[i] = true
+		}
+	}
+	r := sdNewLiveRig()
+	defer r.ts.Close()
+	hm, hs, ok := sdDialHealthy(r.ts.URL)
+	if !ok {
+		return fmt.Errorf("live: the healthy client could not connect")
+	}
+	defer hm.Close()
+	if !sdEcho(hs, "warmup", 10*time.Second) {
+		return fmt.Errorf("live: the healthy client got no ack before any malformed traffic")
+	}
+	fmt.Printf("LIVE-CLASSES %d\n", len(sdLiveClasses))
+	for i, cl := range sdLiveClasses {
+		if len(want) > 0 && !want[i] {
+			continue
+		}
+		fmt.Printf("LIVE-START %d %s\n", i, cl.Name)
+		row := sdLiveRow{Suite: "live", Class: cl.Name, Index: i, Fam: cl.Fam, Frames: [][]int{}}
+		var frames [][]byte
+		for _, f := range cl.Frames {
+			b, _ := sdLiveFrame(f)
+			frames = append(frames, b)
+			row.Frames = append(row.Frames, vk.Ints(b))
+		}
+		row.Dec = sdRun("live", frames, 0, cl.Fam)
+
+		// raw peer
+		var (
+			rmu    sync.Mutex
+			sid    string
+			closed bool
+			rp     = jsonparser.NewCreator(0, stdjson.New())()
+		)
+		cb := &eio.Callbacks{
+			OnPacket: func(packets ...*eioparser.Packet) {
+				rmu.Lock()
+				defer rmu.Unlock()
+				for _, p := range packets {
+					if p.Type != eioparser.PacketTypeMessage {
+						continue
+					}
+					func() {
+						defer func() { recover() }()
+						rp.Add(p.Data, func(h *parser.PacketHeader, ev string, decode parser.Decode) {
+							if h.Type == parser.PacketTypeConnect && sid == "" {
+								var v struct {
+									SID string `json:"sid"`
+								}
+								if vals, err := decode(reflect.TypeOf(&v)); err == nil && len(vals) == 1 {
+									if p, ok := vals[0].Interface().(*struct {
+										SID string `json:"sid"`
+									}); ok {
+										sid = p.SID
+									}
+								}
+							}
+						})
+					}()
+				}
+			},
+			OnClose: func(reason eio.Reason, err error) {
+				rmu.Lock()
+				closed = true
+				rmu.Unlock()
+			},
+		}
+		ecfg := &eio.ClientConfig{Transports: []string{"websocket"}}
+		ecfg.WebSocketDialOptions = &websocket.DialOptions{CompressionMode: websocket.CompressionDisabled}
+		sock, err := eio.Dial(r.ts.URL, cb, ecfg)
+		if err != nil {
+			row.Note = "raw dial failed: " + err.Error()
+			sdLiveEmit(out, row)
+			continue
+		}
+		sock.Send(&eioparser.Packet{Type: eioparser.PacketTypeMessage, Data: []byte("0")})
+		gotSid := r.wait(10*time.Second, func() bool { rmu.Lock(); defer rmu.Unlock(); return sid != "" })
+		if !gotSid {
+			row.Note = "raw peer got no CONNECT reply"
+		}
+		rmu.Lock()
+		mySid := sid
+		rmu.Unlock()
+		for _, f := range cl.Frames {
+			b, isBin := sdLiveFrame(f)
+			sock.Send(&eioparser.Packet{Type: eioparser.PacketTypeMessage, IsBinary: isBin, Data: b})
+		}
+		// wait until the server reacted in one of the three ways (or give up after a grace period)
+		reacted := func() bool {
+			rmu.Lock()
+			c := closed
+			rmu.Unlock()
+			return c || r.handler[mySid] > 0 || r.errh[mySid] > 0
+		}
+		r.wait(3*time.Second, reacted)
+		if n := len(row.Dec.Outs); n > 0 && row.Dec.Outs[n-1] == "err" {
+			// Add rejected the frame: the close follows the error handlers on another goroutine
+			r.wait(3*time.Second, func() bool { rmu.Lock(); defer rmu.Unlock(); return closed })
+		} else {
+			time.Sleep(50 * time.Millisecond)
+		}
+		r.mu.Lock()
+		row.Handler = r.handler[mySid] > 0
+		row.ErrH = r.errh[mySid] > 0
+		r.mu.Unlock()
+		rmu.Lock()
+		row.Closed = closed
+		rmu.Unlock()
+
+		row.Healthy = sdEcho(hs, fmt.Sprintf("after-%d", i), 10*time.Second)
+		lm, ls, lok := sdDialHealthy(r.ts.URL)
+		row.Later = lok && sdEcho(ls, fmt.Sprintf("later-%d", i), 10*time.Second)
+		lm.Close()
+		sock.Close()
+		sdLiveEmit(out, row)
+		fmt.Printf("LIVE-DONE %d\n", i)
+	}
+	return nil
+}
